@@ -22,8 +22,9 @@ type C13Decl struct {
 	Local    bool     `json:"local"`
 	Literal  string   `json:"literal,omitempty"` // literal initialiser as written (integers and strings only)
 	Params   []string `json:"params,omitempty"`
-	Comment  []string `json:"comment"` // expected documentation lines (nil = none)
-	UseOff   int      `json:"useOff"`  // byte offset of a use of the name (hover position)
+	Vararg   bool     `json:"vararg,omitempty"` // the parameter list ends with `...`
+	Comment  []string `json:"comment"`          // expected documentation lines (nil = none)
+	UseOff   int      `json:"useOff"`           // byte offset of a use of the name (hover position)
 	Alphabet string   `json:"alphabet"`
 	AliasOf  string   `json:"aliasOf,omitempty"` // alias: the expression it is initialised with
 }
@@ -109,8 +110,15 @@ func genC13(t *rapid.T) C13Case {
 			for j := 0; j < np; j++ {
 				d.Params = append(d.Params, fmt.Sprintf("p%d_%d", i+1, j+1))
 			}
+			d.Vararg = rapid.IntRange(0, 3).Draw(t, "vararg") == 0
 		}
 		ps := strings.Join(d.Params, ", ")
+		if d.Vararg {
+			if ps != "" {
+				ps += ", "
+			}
+			ps += "..."
+		}
 		line := ""
 		switch d.Kind {
 		case "alias":
@@ -231,6 +239,21 @@ func checkC13(c C13Case, env *Env) *Violation {
 			}
 			pos += j + len(p)
 		}
+		if strings.HasSuffix(d.Kind, "func") || d.Kind == "member-method" {
+			// the parameter list as written: NAME(p1[: type], p2[: type], ...) with nothing added or dropped
+			want := append([]string{}, d.Params...)
+			if d.Kind == "member-method" {
+				want = append([]string{"self"}, want...)
+			}
+			if d.Vararg {
+				want = append(want, "...")
+			}
+			got, ok := labelParams(label, d.Name)
+			if !ok || strings.Join(got, ",") != strings.Join(want, ",") {
+				return violf("label-signature", "hover label %q shows the parameter list %q of %q, the declaration has %q\n%s", label, got, d.Name, want, c.Text)
+			}
+			env.Stats.Class(fmt.Sprintf("signature-%dparams-vararg=%v", len(d.Params), d.Vararg))
+		}
 		// documentation: what follows the label block, minus the file name line
 		doc := v
 		if k := strings.Index(v, "\n```"); k >= 0 {
@@ -272,3 +295,28 @@ func checkC13(c C13Case, env *Env) *Violation {
 }
 
 func TestC13(t *testing.T) { runProp(t, "C13", genC13, checkC13) }
+
+// labelParams cuts the parameter names out of "… NAME(p1: any, p2: any, ...) …".
+func labelParams(label, name string) ([]string, bool) {
+	i := strings.Index(label, name+"(")
+	if i < 0 {
+		return nil, false
+	}
+	rest := label[i+len(name)+1:]
+	j := strings.Index(rest, ")")
+	if j < 0 {
+		return nil, false
+	}
+	out := []string{}
+	if strings.TrimSpace(rest[:j]) == "" && !strings.Contains(rest[:j], ",") {
+		return out, true
+	}
+	for _, it := range strings.Split(rest[:j], ",") {
+		it = strings.TrimSpace(it)
+		if k := strings.Index(it, ":"); k >= 0 {
+			it = strings.TrimSpace(it[:k])
+		}
+		out = append(out, it)
+	}
+	return out, true
+}
